@@ -2,6 +2,7 @@ package PVM
 
 import (
 	"github.com/New-JAMneration/JAM-Protocol/internal/types"
+	"github.com/New-JAMneration/JAM-Protocol/internal/utilities/merklization"
 	"github.com/New-JAMneration/JAM-Protocol/internal/zzvt"
 )
 
@@ -48,7 +49,7 @@ func zzAccumulateCtx(accounts types.ServiceAccountState) (HostCallArgs, *types.S
 		Designate:  types.ServiceID(zzvt.U32("designator")),
 		Assign:     make(types.ServiceIDList, types.CoresCount),
 	}
-	kv := types.StateKeyVals{}
+	kv := zzRawPool(sid)
 	newPS := ps.DeepCopy()
 	newKV := kv.DeepCopy()
 	sa := newPS.ServiceAccounts[sid]
@@ -100,3 +101,23 @@ func zzThreshold(i types.ServiceInfo) zzU128 {
 	lo := raw.lo - g
 	return zzU128{raw.hi - zzvt.Ite64(raw.lo < g, 1, 0), lo}
 }
+
+// zzPoolKey / zzPoolLookup identify the entries of the raw key-value pool (state entries that
+// could not be attributed when the state was imported): a storage entry "p" of the caller and a
+// lookup record (hash 9.., length 3) with one slot, between two unrelated entries.
+var zzPoolLookupKey = types.LookupMetaMapkey{Hash: types.OpaqueHash{9}, Length: 3}
+
+func zzRawPool(sid types.ServiceID) types.StateKeyVals {
+	if !zzWithRawPool {
+		return types.StateKeyVals{}
+	}
+	return types.StateKeyVals{
+		{Key: types.StateKey{0xAA, 1}, Value: []byte{1}},
+		{Key: merklization.WrapEncodeDelta2KeyVal(sid, types.ByteSequence("p"), nil).Key, Value: []byte{42, 43}},
+		{Key: merklization.EncodeDelta4Key(sid, zzPoolLookupKey), Value: []byte{1, 5, 0, 0, 0}},
+		{Key: types.StateKey{0xBB, 2}, Value: []byte{2}},
+	}
+}
+
+// zzWithRawPool is switched on by the harnesses that exercise the raw pool.
+var zzWithRawPool = false
